@@ -97,6 +97,7 @@ type Event struct {
 	Kind string `json:"kind"` // OUT ERR READ NOW ORDER BUILTIN EXIT PANIC BUDGET FILE SRC
 	Data string `json:"data,omitempty"`
 	N    int64  `json:"n,omitempty"`
+	T    int64  `json:"t,omitempty"` // simulated wall clock (ms) when the event was recorded
 }
 
 // Events cross process boundaries as JSON (fresh-process runs, replay files);
@@ -107,10 +108,11 @@ type eventJSON struct {
 	Data string `json:"data,omitempty"`
 	B64  string `json:"data_b64,omitempty"`
 	N    int64  `json:"n,omitempty"`
+	T    int64  `json:"t,omitempty"`
 }
 
 func (e Event) MarshalJSON() ([]byte, error) {
-	j := eventJSON{Seq: e.Seq, Kind: e.Kind, N: e.N}
+	j := eventJSON{Seq: e.Seq, Kind: e.Kind, N: e.N, T: e.T}
 	if utf8.ValidString(e.Data) {
 		j.Data = e.Data
 	} else {
@@ -124,7 +126,7 @@ func (e *Event) UnmarshalJSON(b []byte) error {
 	if err := json.Unmarshal(b, &j); err != nil {
 		return err
 	}
-	e.Seq, e.Kind, e.N, e.Data = j.Seq, j.Kind, j.N, j.Data
+	e.Seq, e.Kind, e.N, e.Data, e.T = j.Seq, j.Kind, j.N, j.Data, j.T
 	if j.B64 != "" {
 		d, err := base64.StdEncoding.DecodeString(j.B64)
 		if err != nil {
@@ -191,7 +193,7 @@ var mu sync.Mutex
 
 func record(kind, data string, n int64) {
 	mu.Lock()
-	events = append(events, Event{Seq: len(events), Kind: kind, Data: data, N: n})
+	events = append(events, Event{Seq: len(events), Kind: kind, Data: data, N: n, T: simMs()})
 	mu.Unlock()
 }
 
@@ -532,8 +534,7 @@ func Tick() {
 
 // Builtin is inserted at the entry of the Call method of every Callable
 // implementation other than the user-function type.
-// The event carries the simulated wall clock at the moment of the call.
-func Builtin(name string) { record("BUILTIN", name, simMs()) }
+func Builtin(name string) { record("BUILTIN", name, 0) }
 
 // ---------------------------------------------------------------- map order
 
